@@ -55,6 +55,22 @@ def r1_pairing(ctx):
         ctx.floor('returning paths of %s' % short(k), n, 2)
 
 
+_ITEMS = {}
+
+
+def _items_field(P):
+    """role: the field of ProcessingStack that holds the boxed processing elements"""
+    if id(P) not in _ITEMS:
+        a = P.adts.get('des::net::processing::ProcessingStack') or {}
+        name = 'items'
+        for v in a.get('variants', []):
+            for fd in v['fields']:
+                if 'ProcessingElement' in fd['ty'] and 'Vec' in fd['ty']:
+                    name = fd['n']
+        _ITEMS[id(P)] = name
+    return _ITEMS[id(P)]
+
+
 def _loop_iter_types(f):
     """argument types of Iterator::next calls inside loops"""
     out = []
@@ -77,12 +93,12 @@ def r2_directions(ctx):
         if cls and hooks:
             # manual counting loop instead of an iterator: decide direction and coverage from the induction variable
             c = cls[0]
-            is_len = lambda t: peel(t)[0] == 'call' and peel(t)[1].endswith('Vec::len') and any(x[0] == 'field' and x[2] == 'items' for x in walk(t))
+            is_len = lambda t: peel(t)[0] == 'call' and peel(t)[1].endswith('Vec::len') and any(x[0] == 'field' and x[2] == _items_field(ctx.P) for x in walk(t))
             from .engine.helpers import _chase, _chase_local
             for h in hooks:
                 # the element addressed: items[<index operand>] inside the loop body (MIR level: independent of expression caches)
                 ixs = [x for x in f.calls() if x.b in c['body'] and (x.callee or '').endswith(('IndexMut::index_mut', 'Index::index')) and
-                       any(y[0] == 'field' and y[2] == 'items' for y in walk(f.expr_operand(x.args[0], x.b, 'T'))) and f.dominates(x.b, h.b)]
+                       any(y[0] == 'field' and y[2] == _items_field(ctx.P) for y in walk(f.expr_operand(x.args[0], x.b, 'T'))) and f.dominates(x.b, h.b)]
                 it = None
                 rev_idx = fwd_idx = False
                 if len(ixs) == 1:
@@ -104,7 +120,7 @@ def r2_directions(ctx):
         for (s, ty) in its:
             it = peel(f.expr_operand(s.args[0], s.b, 'T'))
             rng = [x for x in walk(it) if x[0] == 'agg' and 'ops::Range' in x[1]]
-            over_items = any(x[0] == 'field' and x[2] == 'items' for x in walk(it))
+            over_items = any(x[0] == 'field' and x[2] == _items_field(ctx.P) for x in walk(it))
             full_range = bool(rng) and rng[0][2][0] == ('int', 0) and any(x[0] == 'call' and x[1].endswith('Vec::len') for x in walk(rng[0][2][1])) and over_items
             slice_iter = ('std::slice::Iter' in ty) and over_items and not rng
             is_rev = 'std::iter::Rev<' in ty
@@ -115,7 +131,7 @@ def r2_directions(ctx):
         # the element addressed is items[loop variable] or the iterator's item
         for h in hooks:
             recv = peel(f.expr_operand(h.args[0], h.b, 'T'))
-            from_loop = any(x[0] == 'call' and x[1].endswith('::next') for x in walk(recv)) and any(x[0] == 'field' and x[2] == 'items' for x in walk(recv))
+            from_loop = any(x[0] == 'call' and x[1].endswith('::next') for x in walk(recv)) and any(x[0] == 'field' and x[2] == _items_field(ctx.P) for x in walk(recv))
             ctx.check(from_loop and bool(f.loops_containing(h.b)), 'element-from-loop:%s' % hook, '%s is called on the element selected by the loop' % hook, h.where(), show(recv)[:200])
 
 
@@ -125,7 +141,31 @@ def r3_per_element(ctx):
     if f:
         st = [s for s in f.calls() if s.callee == 'des::net::processing::ProcessingElement::event_start']
         inc = [s for s in f.calls() if s.callee == 'des::net::processing::ProcessingElement::incoming']
-        if ctx.floor('event_start', len(st), 1) and ctx.floor('incoming', len(inc), 1):
+        if not inc:
+            # `msg = msg.and_then(|m| element.incoming(m))`: the element sees the message only if one exists (and_then), after event_start
+            n_at = 0
+            for c in f.calls():
+                if c.name != 'std::option::Option::and_then' or len(c.args) != 2:
+                    continue
+                cl = peel(f.expr_operand(c.args[1], c.b, 'T'))
+                g = ctx.P.fns.get(cl[1][len('closure:'):]) if cl[0] == 'agg' and str(cl[1]).startswith('closure:') else None
+                gi = [x for x in (g.calls() if g else []) if x.callee == 'des::net::processing::ProcessingElement::incoming']
+                if not gi:
+                    continue
+                n_at += 1
+                doms = [x for x in st if f.dominates(x.b, c.b) and x.b != c.b and set(f.loops_containing(x.b)) == set(f.loops_containing(c.b))]
+                ctx.check(bool(doms), 'start-before-incoming', 'an element sees event_start before incoming', c.where())
+                passed = peel(g.expr_operand(gi[0].args[1], gi[0].b, 'T'))
+                ctx.check(passed[0] == 'arg' and passed[1] == 2, 'incoming-only-with-message', 'incoming is only called while a message exists (Option::and_then passes the existing message)', c.where())
+                if doms:
+                    a0 = canon(peel(f.expr_operand(doms[-1].args[0], doms[-1].b, 'T')))
+                    a1 = canon(peel(subst_captures(g.expr_operand(gi[0].args[0], gi[0].b, 'T'), cl[2])))
+                    i0 = [x for x in walk(a0) if x[0] == 'index']
+                    i1 = [x for x in walk(a1) if x[0] == 'index']
+                    same = (i0 and i1 and i0[0][2] == i1[0][2]) or a0 == a1
+                    ctx.check(bool(same), 'same-element', 'event_start and incoming address the same element', c.where(), {'start': show_c(a0)[:120], 'incoming': show_c(a1)[:120]})
+            ctx.floor('incoming', n_at, 1)
+        elif ctx.floor('event_start', len(st), 1) and ctx.floor('incoming', len(inc), 1):
             for i in inc:
                 doms = [x for x in st if f.dominates(x.b, i.b) and x.b != i.b and set(f.loops_containing(x.b)) == set(f.loops_containing(i.b))]
                 ctx.check(bool(doms), 'start-before-incoming', 'an element sees event_start before incoming', i.where())
